@@ -91,7 +91,7 @@ func run(c *lib.Ctx) error {
 	var layouts []lib.GenAsset
 	for _, l := range lib.GenCatalogue() {
 		switch l.Asset.Name {
-		case "g_avgfirst_tl", "g_irr7_12800", "g_alt48_tl", "g_60000_frag_tl":
+		case "g_avgfirst_tl", "g_irr7_12800", "g_alt48_tl", "g_60000_frag_tl", "g_mixed_n", "g_mixed_n2":
 			layouts = append(layouts, l.Asset)
 		}
 	}
